@@ -1,6 +1,6 @@
 """./check selftest  - anti-vacuity checks of the machinery itself (not a MANIFEST check):
  (1) negative-control models must FAIL: RTree without the NaN row filter, PackFS without the placeholder fix, the two-field memo of Caches,
-     string order of partition numbers without the natural sort;
+     string order of partition numbers without the natural sort, the meta_nonempty design before c721e9e;
  (2) corrupted traces must be REJECTED: a flipped answer, a dropped protocol call and two swapped calls in an accepted PackFS trace;
      a flipped result bit in box / point / R-tree / pack records."""
 from __future__ import annotations
@@ -29,6 +29,8 @@ def run(tier="quick", seed=0):
     bad += expect("two-field memo violates UseSeesOwnAnswer", bool(r.violated))
     r = run_tlc("MC_ParquetDS", cfg=dict(constants=dict(MaxParts=12), invariants=["Sensitive"]), timeout=3000)
     bad += expect("string order differs from numeric order beyond ten partitions (Sensitive holds)", not r.violated)
+    r = run_tlc("MC_ActiveGeom", cfg=dict(constants=dict(AllCols="<- ColsA", GeoCols="<- GeoA", MaxOps=3, FixMetaNonempty=False), invariants=["Honoured"]), timeout=3000)
+    bad += expect("ActiveGeom with the pre-fix meta_nonempty violates Honoured", "Honoured" in r.violated)
     # corrupted PackFS traces
     cfg = Cfg(n=8, nin=2, nout=3, mode="inside")
     ref = packfs.run_pack(cfg)
